@@ -44,7 +44,7 @@ def run(ctx):
                          "--kmax", kmax, "--seed", ctx.seed, "--per-root", 1 if quick else 3, "--out", tr,
                          "--cap", (6000 if quick else 60000) if mode == "sample" else 200000,
                          "--samples", 12 if quick else 40], timeout=3000)
-        n = validate_search_trace(ctx, tr, name)
+        n = validate_search_trace(ctx, tr, name, [str(a) for a in h["args"]])
         return name, tr, h, n
 
     total = runs = 0
